@@ -468,6 +468,27 @@ func runCoreScripted(seed uint64, n int, out *Out) {
 				c.endBlock()
 			}
 		},
+		// 12: two markets share the pool. On market 1 one participation backs a large bet on outcome 1 and two small bets
+		//     on outcome 2, then its depositor withdraws all that is withdrawable, then outcome 1 wins: what market 1 pays
+		//     out must come from what is held for market 1 (the worst-case loss stays locked through the withdrawal)
+		func(h int) {
+			c := newCoreScript(out, h, 100, 0, 2, 1, 0, 1000, 100)
+			m1 := c.market(2)
+			m2 := c.market(2)
+			c.deposit(m2, 2, 10000)
+			c.deposit(m1, 1, 10000)
+			c.wager(m1, 6, 0, "5", 1001)
+			c.wager(m1, 7, 1, "2", 101)
+			c.wager(m1, 8, 1, "2", 101)
+			c.withdraw(m1, 1, 1, 1, 0)
+			c.endBlock()
+			c.resolve(m1, 5, 0)
+			c.endBlock()
+			c.endBlock()
+			c.resolve(m2, 3, 0)
+			c.endBlock()
+			c.endBlock()
+		},
 	}
 	for h, f := range scripts {
 		if skipHist(h) {
